@@ -1029,6 +1029,7 @@ class FnTrans:
                     t, ty, p = self.expr(init[0], env)
                     if ty == "SZ" and lt == "Rat" and self.job.get("sz_to_rat"): t, ty = "(SZ.toRat %s)" % t, "Rat"
                     if lt == "Option " + ty: t, ty = "(some %s)" % t, lt      # a non-null object (e.g. an element of an id-vector) stored in a pointer variable
+                    if ty == "Rat" and lt == "SZ" and self.job.get("sz_to_rat"): lt = "Rat"    # a double local initialised with a sign-of-zero-free value
                     if ty != lt: raise Unsupported("%s: init type %s for %s %s" % (self.name, ty, lt, d["name"]))
                     lets.append("let %s : %s := %s" % (ln, lt, t)); pres.append(p)
                 else:
